@@ -324,7 +324,7 @@ static C06_WEIGHTS: &[(u16, u32)] = &[
     (t::FIND, 6),
     (t::FIND_MUT, 4),
     (t::FIND_ENTRY, 14),
-    (t::ENTRY, 12),
+    (t::ENTRY, 16),
     (t::RETAIN, 2),
     (t::EXTRACT_IF, 2),
     (t::DRAIN, 1),
@@ -340,7 +340,7 @@ static C06_WEIGHTS: &[(u16, u32)] = &[
     (t::FILL_TO_CAPACITY, 4),
     (t::REMOVE_RUN, 5),
     (t::REMOVE_ALL_BUT, 2),
-    (t::REHASH_SETUP, 2),
+    (t::REHASH_SETUP, 7),
     (t::REMOVE_NTH, 4),
 ];
 
@@ -384,7 +384,7 @@ pub static C06: PropDef = PropDef {
            remove-then-reinsert through the returned VacantEntry, OR called entry() at growth_left == 0, OR ran \
            iter_hash over a probe longer than one group",
     level: "exploration",
-    cases_quick: 60_000,
+    cases_quick: 90_000,
     cases_thorough: 1_500_000,
     strategy: c06_strategy,
     eval: eval_plain,
